@@ -1,14 +1,118 @@
 (* C05 -- Logical time in routines is exact and independent of physical jitter.
-   Property theorems only (first stage: see notes/C05.md). *)
+   Property theorems only.  Models: model/KProg.v, model/KNrt.v (NRT), model/KRt.v (RT transition
+   system driven by an oracle).  "repaired" = behaviour after build/proposed_fixes/C05_*.diff,
+   "as_found" = unpatched code (F20, F11), kept to state the refutations.
+
+   STATUS (see notes/C05.md): the statements marked _partial are the ONE-STEP laws, proved for
+   every state, every program and -- in RT -- with no physical time in scope at all; the
+   whole-execution statement (induction over executions linking consecutive wake-ups of one routine)
+   is written in the comment above each and is NOT proved here; it is what the correspondence
+   replays (RT under injected jitter, NRT) and what the search monitors check. *)
 From Coq Require Import ZArith QArith Qround List Bool.
 Require Import SC3.model.KProg SC3.model.KNrt SC3.model.KRt.
 Require Import SC3.proofs.C05_frame SC3.proofs.C07_runs SC3.proofs.C05_props.
 Import ListNotations.
 Open Scope Q_scope.
 
+(* FULL STATEMENT (not proved): for every program p with non-negative initial tempi, every oracle
+   sched and all rid k c s b c0 s0 b0 body:
+     In (EvResume rid k c s b) (n_log (rs (rt_run off p sched))) ->
+     In (EvResume rid 0 c0 s0 b0) (n_log (rs (rt_run off p sched))) -> body = script of rid ->
+     b == b0 + Qsum (firstn k (yields body)) /\ s == beats2secs_c(b);
+   and the same for nrt_loop repaired (for as_found under n_f11 = false).
+   PROVED: (1) what a woken routine observes is determined by the key of its task alone:
+   logical seconds = beats2secs(key), clock.beats = key; rt_wake has no physical-time argument, so
+   the observation is the same under every wake-up latency, load and interleaving;
+   (2) a routine that yields d is queued at key + d (not at "now" + d). *)
+Theorem kth_resume_time_rt_partial : forall off p st e r,
+  nth_error (n_routs st) (e_rid e) = Some r -> wf_tcs (n_tcs st) ->
+  (exists beats, In (EvResume (e_rid e) (r_k r) (e_clock e) (Qred (b2s (n_tcs st) (e_clock e) (e_time e))) beats)
+                    (n_log (rt_wake off p st e)) /\ beats == e_time e) /\
+  (forall st2 d rest,
+     let T := Qred (b2s (n_tcs st) (e_clock e) (e_time e)) in
+     run_acts (Some off) repaired p
+       (add_log (set_mtime st T) (EvResume (e_rid e) (r_k r) (e_clock e) T (Qred (s2b (n_tcs st) (e_clock e) T))))
+       (Some (e_rid e, r_k r)) T (e_clock e) (r_rest r) = (st2, OYield d rest) ->
+     yields (r_rest r) = d :: yields rest /\
+     exists e', In e' (n_q (rt_wake off p st e)) /\ e_rid e' = e_rid e /\ e_clock e' = e_clock e /\
+                e_time e' == e_time e + d).
+Proof.
+  intros off p st e r Hr W. split.
+  - exact (rt_wake_observes off p st e r Hr W).
+  - intros st2 d rest T E. exact (rt_wake_resched off p st e r st2 d rest Hr E).
+Qed.
+
+(* NRT one-step law, as-found or repaired code: the routine is re-queued at
+   beats2secs(beats + d) where beats is what it observed at this resumption *)
+Theorem kth_resume_time_nrt_partial : forall qk p st e r st2 d rest,
+  nth_error (n_routs st) (e_rid e) = Some r ->
+  let T := e_time e in
+  let beats := Qred (s2b (n_tcs st) (e_clock e) T) in
+  run_acts None qk p (add_log (set_mtime st T) (EvResume (e_rid e) (r_k r) (e_clock e) T beats))
+    (Some (e_rid e, r_k r)) T (e_clock e) (r_rest r) = (st2, OYield d rest) ->
+  yields (r_rest r) = d :: yields rest /\
+  exists e', In e' (n_q (nrt_wake qk p st e)) /\ e_rid e' = e_rid e /\ e_clock e' = e_clock e /\
+             e_beats e' == beats + d /\ e_time e' == b2s (n_tcs st2) (e_clock e) (beats + d).
+Proof. exact nrt_wake_resched. Qed.
+
+(* the whole-execution NRT statement is FALSE of the code as found (F11): TempoClock(1), routine 0
+   yields 1/2 beat, at 1/8 s another routine sets the tempo to 2 while routine 0's task is pending:
+   routine 0 resumes at beat 7/8 (as found) instead of 1/2 (repaired, and RT) *)
+Theorem kth_resume_time_nrt_as_found_refuted :
+  nrt_completed as_found f11_prog 10 = true /\
+  n_f11 (nrt_run as_found f11_prog 10) = true /\
+  In (EvResume 0 0 (CTempo 0) 0 0) (n_log (nrt_run as_found f11_prog 10)) /\
+  In (EvResume 0 1 (CTempo 0) (1#2) (7#8)) (n_log (nrt_run as_found f11_prog 10)) /\
+  In (EvResume 0 1 (CTempo 0) (5#16) (1#2)) (n_log (nrt_run repaired f11_prog 10)).
+Proof. exact f11_refuted. Qed.
+
+(* FULL STATEMENT (not proved): In (EvPlay o child c T) log -> In (EvResume child 0 c' s b) log -> s == T.
+   PROVED: play() queues the child at the caller's logical time T on every clock (repaired NRT code;
+   RT: the key converts back to T) *)
+Theorem child_starts_at_parent_time_partial : forall qk off st T c rid, wf_tcs (n_tcs st) ->
+  (qk_app_abs qk = false ->
+   exists e, In e (n_q (nrt_sched_play None qk st T c rid)) /\ e_rid e = rid /\ e_clock e = c /\ e_time e == T) /\
+  (c <> CApp ->
+   exists e, In e (n_q (nrt_sched_play (Some off) repaired st T c rid)) /\ e_rid e = rid /\ e_clock e = c /\
+             b2s (n_tcs st) c (e_time e) == T).
+Proof.
+  intros qk off st T c rid W. split.
+  - intros Hq. exact (play_due_at_parent_time qk st T c rid Hq W).
+  - intros Hc. exact (play_due_at_parent_time_rt off st T c rid Hc W).
+Qed.
+(* false of the code as found (F20): played on AppClock at logical time 1, the child starts at 0 *)
+Theorem child_starts_at_parent_time_as_found_refuted :
+  nrt_completed as_found f20_prog 10 = true /\
+  In (EvPlay (Some (0, 1)%nat) 1 CApp 1) (n_log (nrt_run as_found f20_prog 10)) /\
+  In (EvResume 1 0 CApp 0 0) (n_log (nrt_run as_found f20_prog 10)).
+Proof. exact f20_child_refuted. Qed.
+
+(* nrt_time_monotone -- FULL STATEMENT (not proved): yields >= 0, initial tempi >= 0 ->
+   the seconds of successive EvResume of nrt_loop repaired are non-decreasing.
+   What is proved is its refutation for the code as found (F20): 0, 1, 0, 1/4, 3/2 *)
+Theorem nrt_time_monotone_as_found_refuted :
+  nrt_completed as_found f20_prog 10 = true /\
+  map Qred (resume_secs (n_log (nrt_run as_found f20_prog 10))) = [0; 1; 0; 1#4; 3#2].
+Proof. exact f20_monotone_refuted. Qed.
+
+(* every program, every fuel, as found or repaired: elapsed_time() after process() is the logical
+   time of the last executed task (0 when none ran) *)
 Theorem nrt_elapsed_ends_at_last_instant : forall qk p fuel,
   match last_resume_secs (n_log (nrt_run qk p fuel)) with
   | Some s => n_mtime (nrt_run qk p fuel) = s
   | None => n_mtime (nrt_run qk p fuel) = 0
   end.
 Proof. exact nrt_elapsed_last. Qed.
+
+(* non-vacuity: a tempo clock is well-formed; a nested program across three clocks runs *)
+Example c05_wf : wf_tcs [tc_new 2 (1#4); tc_new 0 0].
+Proof. repeat constructor; apply tc_new_wf. Qed.
+Example c05_example :
+  let p := mkProg [2] [[Yield (1#4); Play 1 CApp; Play 1 (CTempo 0); Yield (1#2)]; [Yield (1#8); Yield (1#8)]]
+                  [Play 0 CSystem] 0 in
+  nrt_completed repaired p 20 = true /\
+  map Qred (resume_secs (n_log (nrt_run repaired p 20))) = [0; 1#4; 1#4; 1#4; 5#16; 3#8; 3#8; 1#2; 3#4].
+Proof. vm_compute. split; reflexivity. Qed.
+
+Print Assumptions kth_resume_time_rt_partial.
+Print Assumptions nrt_elapsed_ends_at_last_instant.
